@@ -1398,6 +1398,43 @@ theorem src_CalculateDues (o : Ops) (sub : String → Nat) (t : PayCalcSrc.Terms
     PayCalcSrc.Terms_CalculateDues o sub none zero sum = none :=
   ⟨CalculateDues_eq o sub t zero sum, CalculateDues_none o sub zero sum⟩
 
+/-! ### the error-returning functions of bill/line_calculate.go (B20)
+
+`toModel f` reads the result of an error function as the model's: `.ok a ↦ .ok (f a)`,
+`.error e ↦ .error (errOf e)` (the model's error by the innermost message).  `toItem sub cur`
+adds what the model's item carries besides the Go fields: the subunits of the item's currency
+(of the document's when it names none).  `hr` says that the model's exchange rates carry the
+subunits of their destination currency (`XRate.toSub`, an input of the model; Go reads
+`er.To.Def()`).  What the Go functions have written through `item` / `sl` before returning an
+error is not part of these statements: see `errors_BillCalcSrc_as_reviewed`. -/
+
+/-- `calculateLineItemPrice` (for an item that has a price: the only way it is called) = `Calc.itemPrice`:
+    own currency, alternative price in the document's currency, exchange rate, "no exchange rate" -/
+theorem src_calculateLineItemPrice (o : Ops) (sub : String → Nat) (it : BillCalcSrc.Item) (p0 : Amount)
+    (hp : it.Price = some p0) (cur : String) (rates : List XRate) (hr : ∀ r ∈ rates, r.toSub = sub r.to) :
+    toModel (toItem sub cur) (BillCalcSrc.calculateLineItemPrice o sub it cur rates)
+      = itemPrice o cur (sub cur) rates (toItem sub cur it) p0 :=
+  calculateLineItemPrice_eq o sub it p0 hp cur rates hr
+
+example : ∃ it : BillCalcSrc.Item, ∃ p0, it.Price = some p0 ∧ it.Currency ≠ "" ∧ it.AltPrices ≠ [] :=
+  ⟨⟨"USD", some ⟨100, 2⟩, [⟨"EUR", ⟨90, 2⟩⟩]⟩, _, rfl, by decide, by decide⟩
+
+/-- `currency.Convert` as the configuration reads it = the model's rate lookup and conversion -/
+theorem src_convertRates (o : Ops) (sub : String → Nat) (rates : List XRate) (hr : ∀ r ∈ rates, r.toSub = sub r.to)
+    (f t : String) (h : f ≠ t) (a : Amount) :
+    convertRates o sub rates f t a = (findRate rates f t).map (fun r => convert o r a) :=
+  convertRates_eq o sub rates hr f t h a
+
+example : ∃ (sub : String → Nat) (rates : List XRate), rates ≠ [] ∧ ∀ r ∈ rates, r.toSub = sub r.to :=
+  ⟨fun _ => 2, [⟨"USD", "EUR", 2, ⟨9, 1⟩⟩], by decide, by simp⟩
+
+/-- `calculateSubLine` = `Calc.calcSubLine`, for every sub-line -/
+theorem src_calculateSubLine (o : Ops) (sub : String → Nat) (sl : BillCalcSrc.SubLine) (cur : String)
+    (rates : List XRate) (rr : String) (hr : ∀ r ∈ rates, r.toSub = sub r.to) :
+    toModel (toSubLine (toItem sub cur)) (BillCalcSrc.calculateSubLine o sub sl cur rates rr)
+      = calcSubLine o cur (sub cur) rates (ruleOf rr) (toSubLine (toItem sub cur) sl) :=
+  calculateSubLine_eq o sub sl cur rates rr hr
+
 /-! ### headline statements of C01 / C03 over the regenerated definitions -/
 
 /-- C01 "sums never round", about the code: the regenerated `calculateLineSum` is
